@@ -634,6 +634,17 @@ LayeredOrthogonalEdgeList MinimumTerminalSpanningTree::
             continue;
         }
 
+        if (other->id.isConnPt() && !realVert->id.isDummyPinHelper() &&
+                (origTerminals.find(other) == origTerminals.end()) &&
+                (terminals.find(other) == terminals.end()))
+        {
+            // Don't lead the hyperedge through the vertices of connector
+            // endpoints or connection pins that are not its own terminals
+            // (pins are entered from the dummy vertex of a terminal only).
+            // Such vertices may lie inside shapes.
+            continue;
+        }
+
         VertInf *partner = (isRealVert) ? other : orthogonalPartner(other);
         COLA_ASSERT(partner);
 
